@@ -501,6 +501,54 @@ fn int_case(rng: &mut Rng, acc: &mut Acc) {
             Err(m) => report(acc, "weighted_sum_axis", ty, &shape, &la, ka, &cf, &m),
         }
     }
+    // both operands are views of ONE buffer (same start or not, different steps, transposes): the results must be
+    // those of the logically equal owned copies
+    {
+        let m = 2 + rng.below(9);
+        let parent = Array1::from((0..3 * m + 3).map(|_| rng.range(-50, 50)).collect::<Vec<i64>>());
+        let sq = Array2::from_shape_fn((m.min(5), m.min(5)), |_| rng.range(-50, 50));
+        let (sx, sy) = (1 + rng.below(3), 1 + rng.below(3));
+        let (ox, oy) = (if rng.chance(0.6) { 0 } else { rng.below(3) }, if rng.chance(0.6) { 0 } else { rng.below(3) });
+        let (rx, ry) = (rng.chance(0.2), rng.chance(0.2));
+        let mk = |o: usize, st: usize, rev: bool| {
+            let mut v = parent.slice(ndarray::s![o..o + (m - 1) * st + 1;st as isize]);
+            if rev {
+                v.invert_axis(Axis(0));
+            }
+            v
+        };
+        let (x, y) = (mk(ox, sx, rx), mk(oy, sy, ry));
+        let (xo, yo) = (x.to_owned(), y.to_owned());
+        let t = sq.t();
+        let (so, to) = (sq.to_owned(), Array2::from_shape_vec(t.raw_dim(), t.iter().cloned().collect()).unwrap());
+        macro_rules! alias {
+            ($op:expr, |$p:ident, $q:ident| $body:expr) => {{
+                acc.evals += 2;
+                acc.count(&format!("op_{}_aliased", $op));
+                let got = { let ($p, $q) = (&x, &y); $body };
+                let want = { let ($p, $q) = (&xo, &yo); $body };
+                if got != want {
+                    acc.violation("layout_differential", None, J::obj(vec![("op", J::s($op)), ("what", J::s(format!("two views of one buffer (offsets {} {}, steps {} {}, reversed {} {}) give {} but their owned copies give {}", ox, oy, sx, sy, rx, ry, got, want))), ("parent", J::s(format!("{:?}", parent.to_vec()))), ("len", J::u(m))]));
+                }
+                let got = { let ($p, $q) = (&sq, &t); $body };
+                let want = { let ($p, $q) = (&so, &to); $body };
+                if got != want {
+                    acc.violation("layout_differential", None, J::obj(vec![("op", J::s($op)), ("what", J::s(format!("a square matrix and its transposed view give {} but owned copies give {}", got, want))), ("matrix", J::s(format!("{:?}", sq)))]));
+                }
+            }};
+        }
+        alias!("count_eq", |p, q| fp_val(catch(|| p.count_eq(q))));
+        alias!("count_neq", |p, q| fp_val(catch(|| p.count_neq(q))));
+        alias!("sq_l2_dist", |p, q| fp_val(catch(|| p.sq_l2_dist(q))));
+        alias!("l1_dist", |p, q| fp_val(catch(|| p.l1_dist(q))));
+        alias!("linf_dist", |p, q| fp_val(catch(|| p.linf_dist(q))));
+        alias!("l2_dist", |p, q| fp_val(catch(|| p.l2_dist(q).map(|v| v.to_bits()))));
+        alias!("mean_abs_err", |p, q| fp_val(catch(|| p.mean_abs_err(q).map(|v| v.to_bits()))));
+        alias!("mean_sq_err", |p, q| fp_val(catch(|| p.mean_sq_err(q).map(|v| v.to_bits()))));
+        alias!("root_mean_sq_err", |p, q| fp_val(catch(|| p.root_mean_sq_err(q).map(|v| v.to_bits()))));
+        alias!("peak_signal_to_noise_ratio", |p, q| fp_val(catch(|| p.peak_signal_to_noise_ratio(q, 255).map(|v| v.to_bits()))));
+        alias!("weighted_sum", |p, q| fp_val(catch(|| p.view().weighted_sum(&q.view()))));
+    }
     if n >= 2 {
         acc.nontrivial(h64(&("int", &shape, &la, &lb, ka, kb, &a, &b)));
     }
